@@ -294,6 +294,11 @@ impl Watcher {
                     "The appointment contained invalid data {}",
                     appointment.locator()
                 );
+                // If this was an update, the slots have been charged against the version being replaced, so
+                // that version goes with it (otherwise its slots would be handed back while it stays stored).
+                if self.dbm.lock().unwrap().appointment_exists(uuid) {
+                    self.gatekeeper.delete_appointments(vec![uuid], false);
+                }
                 TriggeredAppointment::Invalid
             }
         }
